@@ -35,9 +35,21 @@ class Unsupported(Exception):
     pass
 
 
+class _Promote(Exception):
+    def __init__(self, name):
+        super().__init__(name)
+        self.name = name
+
+
 # functions that are MODELLED by a hand-written primitive of Model/Py.lean instead of being translated (floating-point
 # square root): name -> (parameter types, result type, Lean name)
 PRIMITIVE_FUNCS = {"_full_matrix_size": (["int"], "int", "Py.fullMatrixSize")}
+
+# attribute / index PATHS of record-typed parameters: (steps) -> (field, type); "[]" stands for an index expression
+RECORD_PATHS = {"bicmodel": {("arguments", "num_clusters"): ("num_clusters", "int"),
+                             ("clusters", "[]", "train_inverse"): ("train_inverse", "arr2"),
+                             ("clusters", "[]", "empirical_covariance"): ("empirical_covariance", "arr2"),
+                             ("point_labels",): ("point_labels", ("list", "int"))}}
 
 ATTRS = {"admmargs": {"window_size": "int", "num_data_series": "int", "rho": "scalar", "sparsity_weight": "lam"}}
 
@@ -78,6 +90,10 @@ def lean_type(t):
         return "Py.Lambda α"
     if t == "admmargs":
         return "Py.ADMMArgs α"
+    if t == "bicmodel":
+        return "Py.BicModel α"
+    if isinstance(t, tuple) and t[0] == "dict":
+        return f"Py.IntMap ({lean_type(t[2])})"
     if isinstance(t, tuple) and t[0] == "list":
         return f"List ({lean_type(t[1])})"
     if isinstance(t, tuple) and t[0] == "tuple":
@@ -134,6 +150,9 @@ SPECS = [
                  "num_blocks": "int"}, ret="scalar", field=True),
     dict(file="admm/solver.py", func="admm_update_z",
          params={"args": "admmargs", "u": "arr1", "x": "arr1"}, ret="arr1", field=True),
+    dict(file="cluster_metrics.py", func="bayesian_information_criterion",
+         params={"model": "bicmodel"}, ret="scalar", field=True,
+         consts={"logdetOf": "Py.Arr2 α → α", "logOfInt": "Int → α"}),
     dict(file="likelihood.py", func="point_log_likelihood_fast",
          params={"point": "arr1", "mu_i": "arr1", "theta_i": "arr2", "log_det_theta": "scalar", "window_size": "int",
                  "num_data_series": "int"}, ret="scalar", field=True, consts=["log2pi"]),
@@ -297,6 +316,11 @@ class FuncTranslator:
             return "[" + ", ".join(p[0] for p in parts) + "]", ("list", parts[0][1])
         if isinstance(e, ast.ListComp):
             return self.listcomp(e)
+        rp = self.record_path(e)
+        if rp is not None:
+            return rp
+        if isinstance(e, ast.Dict) and not e.keys:
+            return "([] : Py.IntMap Int)", ("dict", "int", "int")
         if isinstance(e, ast.Subscript):
             return self.subscript(e)
         if isinstance(e, ast.Attribute):
@@ -327,6 +351,33 @@ class FuncTranslator:
             b, bt = self.expr(e.orelse)
             return f"(if {c} then {a} else {b})", at
         raise Unsupported(f"expression {type(e).__name__}")
+
+    def record_path(self, e):
+        """`model.arguments.num_clusters`, `model.clusters[k].train_inverse`, … on a record-typed parameter"""
+        steps, idx, node = [], None, e
+        while True:
+            if isinstance(node, ast.Attribute):
+                steps.append(node.attr)
+                node = node.value
+            elif isinstance(node, ast.Subscript) and not isinstance(node.slice, (ast.Slice, ast.Tuple)):
+                steps.append("[]")
+                idx = node.slice
+                node = node.value
+            else:
+                break
+        if not (isinstance(node, ast.Name) and self.env.get(node.id) in RECORD_PATHS and steps):
+            return None
+        key = tuple(reversed(steps))
+        table = RECORD_PATHS[self.env[node.id]]
+        if key not in table:
+            return None
+        fld, typ = table[key]
+        if "[]" in key:
+            i, it = self.expr(idx)
+            if it != "int":
+                raise Unsupported("record index")
+            return f"(Py.getItem {node.id}.{fld} {i})", typ
+        return f"{node.id}.{fld}", typ
 
     def as_bool(self, s, t):
         if t != "bool":
@@ -432,6 +483,12 @@ class FuncTranslator:
 
     def subscript(self, e):
         sl = e.slice
+        cs = self.spec.get("consts") or []
+        if "logdetOf" in cs and isinstance(e.value, ast.Call) and isinstance(sl, ast.Constant) and sl.value == 1 \
+                and ast.dump(e.value.func) == ast.dump(ast.parse("np.linalg.slogdet", mode="eval").body) and len(e.value.args) == 1:
+            a, at = self.expr(e.value.args[0])
+            if at == "arr2":
+                return f"(logdetOf {a})", "scalar"     # the log-determinant: a parameter of the translated function
         if isinstance(e.value, ast.Attribute) and e.value.attr == "shape" and isinstance(sl, ast.Constant) \
                 and sl.value in (0, 1):
             s0, t0 = self.expr(e.value.value)
@@ -440,6 +497,11 @@ class FuncTranslator:
             if t0 == "arr1" and sl.value == 0:
                 return f"(Py.Arr1.size {s0})", "int"
         base, bt = self.expr(e.value)
+        if isinstance(bt, tuple) and bt[0] == "dict":
+            i, it = self.expr(sl)
+            if it != bt[1]:
+                raise Unsupported("dict key type")
+            return f"(Py.IntMap.get {base} {i})", bt[2]
         if isinstance(bt, tuple) and bt[0] == "tuple":
             if isinstance(sl, ast.Constant) and isinstance(sl.value, int) and 0 <= sl.value < len(bt) - 1 == 2 + 0 * sl.value:
                 return f"{base}.{sl.value + 1}", bt[1 + sl.value]
@@ -605,6 +667,23 @@ class FuncTranslator:
         if name not in self.known and "." in name and name.split(".")[-1] in self.known \
                 and name.split(".")[0] in ("unique_values",):
             name = name.split(".")[-1]
+        if name == "np.log" and len(args) == 1 and not kw and "logOfInt" in (self.spec.get("consts") or []):
+            a, at = self.expr(args[0])
+            if at == "int":
+                return f"(logOfInt {a})", "scalar"
+        if name == "np.trace" and len(args) == 1 and isinstance(args[0], ast.Call) \
+                and ast.dump(args[0].func) == ast.dump(ast.parse("np.dot", mode="eval").body) and len(args[0].args) == 2:
+            a, at = self.expr(args[0].args[0])
+            b, bt = self.expr(args[0].args[1])
+            if at == "arr2" and bt == "arr2":
+                return f"(Py.traceDot {a} {b})", "scalar"
+        if name == "np.sum" and len(args) == 1 and isinstance(args[0], ast.Compare) and len(args[0].ops) == 1 \
+                and isinstance(args[0].ops[0], ast.Gt) and isinstance(args[0].left, ast.Call) \
+                and ast.dump(args[0].left.func) == ast.dump(ast.parse("np.abs", mode="eval").body):
+            a, at = self.expr(args[0].left.args[0])
+            t_, tt = self.expr(args[0].comparators[0])
+            if at == "arr2" and tt == "scalar":
+                return f"(Py.countAbove {a} {t_})", "int"
         if name == "np.triu_indices" and len(args) == 1 and not kw:
             a, at = self.expr(args[0])
             if at == "int":
@@ -792,6 +871,11 @@ class FuncTranslator:
             bt = self.env.get(nm)
             sl = target.slice
             v, vt = self.pure_expr(value)
+            if isinstance(bt, tuple) and bt[0] == "dict":
+                i, it = self.pure_expr(sl)
+                if it != bt[1] or vt != bt[2]:
+                    raise Unsupported("dict store")
+                return [f"{pad}let {nm} := Py.IntMap.set {nm} {i} {v}"]
             if isinstance(bt, tuple) and bt[0] == "list":
                 i, it = self.pure_expr(sl)
                 if it != "int" or vt != bt[1]:
@@ -833,8 +917,18 @@ class FuncTranslator:
                 return [f"{pad}let {nm} := Py.Arr2.set {nm} {i} {j} {v}"]
         raise Unsupported("assignment form")
 
-    def for_loop(self, s, ind, rest, top):
+    def for_loop(self, s, ind, rest, top, stage=0):
         pad = "  " * ind
+        promoted_retry = (stage == 2)
+        if stage == 0:
+            snapshot = (dict(self.env), self.tmp, self.in_err_loop)
+            try:
+                return self.for_loop(s, ind, rest, top, stage=1)
+            except _Promote as pr:
+                self.env, self.tmp, self.in_err_loop = snapshot[0], snapshot[1], snapshot[2]
+                self.env[pr.name] = "scalar"
+                pre = [f"{pad}let {pr.name} := (({pr.name} : Int) : α)"]
+                return pre + self.for_loop(s, ind, rest, top, stage=2)
         if s.orelse:
             raise Unsupported("for-else")
         it, itt = self.pure_expr(s.iter)
@@ -876,6 +970,9 @@ class FuncTranslator:
                 # e.g. an empty list that got its element type inside the loop
                 if isinstance(saved.get(n), tuple) and saved[n][0] == "list" and saved[n][1] is None:
                     self.env[n] = newenv[n]
+                elif self.spec.get("field") and saved.get(n) == "int" and newenv.get(n) == "scalar" and not promoted_retry:
+                    # an int accumulator that receives floats: Python promotes it; start the loop from the promoted value
+                    raise _Promote(n)
                 else:
                     raise Unsupported(f"type of {n} changes in the loop")
         lines = []
@@ -1016,7 +1113,9 @@ class FuncTranslator:
             text = "  do\n" + "\n".join("  " + l for l in text.split("\n"))
         else:
             text = text.replace("RETURN ", "")
-        params = " ".join([f"({c} : α)" for c in (self.spec.get("consts") or [])]
+        cs = self.spec.get("consts") or []
+        ctypes = cs if isinstance(cs, dict) else {c: "α" for c in cs}
+        params = " ".join([f"({c} : {ty})" for c, ty in ctypes.items()]
                           + [f"({n} : {lean_type(t)})" for n, t in self.spec["params"].items()])
         return f"def {fd.name} {params} : {ret} :=\n{text}\n", self.may_raise
 
@@ -1089,16 +1188,22 @@ def exec_wrappers(available, known):
         name = spec["func"]
         if name not in available:
             continue
+        if isinstance(spec.get("consts"), dict):
+            continue                     # function-valued parameters have no protocol form: no driver op for this one
         consts = list(spec.get("consts") or [])
         toks = [f"a{k}" for k in range(len(consts) + len(spec["params"]))]
         lets, passed = [], []
         for k, cn in enumerate(consts):
             lets.append(f"let c{k} ← parseRat? {toks[k]}")
             passed.append(f"c{k}")
-        for k, (pn, pt) in enumerate(spec["params"].items(), start=len(consts)):
-            st, ex = _parse_for(pt, toks[k], f"x{k}")
-            lets.append(st)
-            passed.append(ex)
+        try:
+            for k, (pn, pt) in enumerate(spec["params"].items(), start=len(consts)):
+                st, ex = _parse_for(pt, toks[k], f"x{k}")
+                lets.append(st)
+                passed.append(ex)
+            _show_for(spec["ret"])
+        except Unsupported:
+            continue
         call = f"Gen.{name} " + " ".join(passed)
         if spec.get("scalar") or spec.get("ones") or spec.get("field"):
             call = f"Gen.{name} (α := Rat) " + " ".join(passed)
